@@ -99,6 +99,7 @@ func genC17(t *rapid.T, ctx *Ctx) interface{} {
 	o := valOpts(ctx)
 	o.NodeEdge = false
 	o.MaxTyped = 40
+	o.BigPtrBias = true // values are shared between the workers: pointer-held big numbers are what an encoder could write to
 	avoidVal(o, "S4-edge-iterator-no-end", "S47-platform-int-and-bool-arrays-unbuildable", "S48-null-into-map", "S28-fixed-zone-offset-lost")
 	evOpts := gen.EvOpts{Comments: true, Padding: true, CustomBinary: true, Media: true, Markers: true, Records: true, Chunked: true, URLRID: true,
 		MaxDepth: 3, MaxArr: 20, Budget: 10, NoEdge: true}
